@@ -4,6 +4,9 @@ From Muscle Require Import Cont.StrL0.
 Import ListNotations.
 Local Open Scope N_scope.
 
+(* split syntactic conjunctions only (plain [split] would unfold definitions such as the invariant) *)
+Ltac splits := repeat match goal with |- _ /\ _ => split end.
+
 Lemma lenN_nil {A} : lenN (@nil A) = 0. Proof. reflexivity. Qed.
 Lemma lenN_cons {A} (x : A) l : lenN (x :: l) = lenN l + 1.
 Proof. unfold lenN. cbn [length]. lia. Qed.
